@@ -34,11 +34,46 @@ def primaries(dt: float):
     yield "LocalVolatilityStock", lambda: LocalVolatilityStock(lambda t, s: torch.full_like(s, 0.2), dt=dt)
 
 
+def hedged_with_a_longer_dated_listing(ctx: Ctx) -> None:
+    """The grid is the HEDGED derivative's: compute_loss / price / fit with a hedge list that contains a listed option of another
+    maturity on the same underlier simulate ceil(M/dt)+1 points for the maturity M of the derivative that is being hedged;
+    time to maturity, payoff and hedge use that grid."""
+    from pfhedge.instruments import BrownianStock, EuropeanOption, LookbackOption
+    from pfhedge.nn import Hedger
+    dt = torch.float64
+    for m_d, m_l in ((10, 30), (30, 10), (7, 8)):
+        for op in ("compute_loss", "price", "fit"):
+            torch.manual_seed(3)
+            stock = BrownianStock(cost=1e-3, dt=1 / 250, dtype=dt)
+            d = LookbackOption(stock, maturity=m_d / 250)
+            listed = EuropeanOption(stock, maturity=m_l / 250, strike=1.05)
+            listed.list(lambda x: (x.ul().spot - 1.0) * 0.5 + 0.02, cost=5e-4)
+            model = torch.nn.Linear(2, 2, dtype=dt)
+            h = Hedger(model, ["log_moneyness", "time_to_maturity"])
+            try:
+                if op == "compute_loss":
+                    h.compute_loss(d, hedge=[stock, listed], n_paths=3)
+                elif op == "price":
+                    h.price(d, hedge=[stock, listed], n_paths=3)
+                else:
+                    h.fit(d, hedge=[stock, listed], n_paths=3, n_epochs=1, verbose=False)
+            except Exception as e:
+                ctx.violation("grid:listed-hedge:raises", f"{op} with a listed option of another maturity in the hedge list raised {type(e).__name__}", {"error": repr(e)[:200]})
+                continue
+            ctx.count(("listed-hedge", m_d, m_l, op), n=1)
+            T = stock.spot.size(1)
+            ttm = d.time_to_maturity()
+            if T != m_d + 1 or ttm.shape != (3, T) or not bool((ttm[:, -1] == 0).all()) or abs(ttm[0, 0].item() - m_d / 250) > 1e-12 or h.compute_hedge(d, hedge=[stock, listed]).shape != (3, 2, m_d + 1):
+                ctx.violation("grid:listed-hedge", f"after {op}(derivative of maturity {m_d} steps, hedge=[underlier, listed option of maturity {m_l} steps]) the simulated grid has {T} points, "
+                              f"ceil(M/dt)+1 = {m_d + 1}", {"op": op, "maturity_steps": m_d, "listed_maturity_steps": m_l, "observed_T": T, "ttm_first": ttm[0, 0].item()})
+
+
 def check(ctx: Ctx) -> None:
     from pfhedge.instruments import (AmericanBinaryOption, BrownianStock, EuropeanBinaryOption, EuropeanForwardStartOption,
                                      EuropeanOption, LookbackOption, VarianceSwap)
     from pfhedge.nn import Hedger, Naked
     warnings.filterwarnings("ignore")
+    hedged_with_a_longer_dated_listing(ctx)
     res = ctx.tlc("MC_Grid", "MC_Grid_q.cfg" if ctx.tier == "quick" else "MC_Grid_t.cfg", workers=4)
     recs = res.records
     if not recs:
